@@ -194,6 +194,9 @@ impl Bk {
     pub fn store(&self) -> Option<&ObjectStore> {
         self.store.as_ref()
     }
+    pub fn cryptor(&self) -> Option<&Cryptor> {
+        self.cryptor.as_ref()
+    }
     pub fn secret(&self) -> &[u8] {
         &self.secret
     }
